@@ -8,9 +8,10 @@ package outputstream
 // One goroutine plays raft's FSM goroutine: Add (from Apply) and Delete of old batches (from
 // Snapshot's compaction) — these two are serial in the running system.  The other goroutines play
 // GetMessages handlers: Get + GetNext followers with cancellation, InterruptGetNext from the
-// handler's cancel function, LastSeen.  Deletes stay far behind the head so that no follower waits
-// behind a deleted batch (that is defect D5 / property C08, not a data race); a panic in a follower
-// is recovered and counted, never hidden.
+// handler's cancel function, LastSeen.  Deletes stay behind every follower's published position (and
+// at least 200 batches behind the head), so that no follower ever waits behind a deleted batch: that
+// situation is defect D5 / property C08 (nil dereference in GetNext while holding messagesMu), not a
+// data race, and would take the whole harness down.
 
 import (
 	"context"
@@ -49,10 +50,24 @@ func TestVerifRaceStream(t *testing.T) {
 	var head uint64 // highest id added (atomic)
 	counts := map[string]*int64{}
 	for _, n := range []string{"fsm:Add", "fsm:Delete", "handler:Get", "handler:GetNext", "handler:GetNext-cancelled",
-		"handler:InterruptGetNext", "handler:LastSeen", "handler:panic-recovered"} {
+		"handler:InterruptGetNext", "handler:LastSeen"} {
 		counts[n] = new(int64)
 	}
 	var wg sync.WaitGroup
+	// position (batch id) each follower is at or behind which it may wait; MaxUint64 = none
+	pos := make([]uint64, readers)
+	for r := range pos {
+		pos[r] = ^uint64(0)
+	}
+	horizon := func(head uint64) uint64 { // delete only ids < horizon
+		h := head - 200
+		for r := range pos {
+			if p := atomic.LoadUint64(&pos[r]); p < h {
+				h = p
+			}
+		}
+		return h
+	}
 
 	// FSM goroutine
 	wg.Add(1)
@@ -76,7 +91,7 @@ func TestVerifRaceStream(t *testing.T) {
 			atomic.StoreUint64(&head, id)
 			atomic.AddInt64(counts["fsm:Add"], 1)
 			if id%16 == 0 && id > 400 {
-				for ; deleted < id-200; deleted++ {
+				for lim := horizon(id); deleted+1 < lim; deleted++ {
 					if err := o.Delete(robust.Id{Id: deleted + 1}); err != nil {
 						t.Errorf("Delete: %v", err)
 						return
@@ -98,18 +113,16 @@ func TestVerifRaceStream(t *testing.T) {
 			rng := rand.New(rand.NewSource(seed + int64(r) + 1))
 			for atomic.LoadInt32(&stop) == 0 {
 				func() {
-					defer func() {
-						if p := recover(); p != nil {
-							atomic.AddInt64(counts["handler:panic-recovered"], 1)
-						}
-					}()
+					defer atomic.StoreUint64(&pos[r], ^uint64(0))
 					ctx, cancel := context.WithCancel(context.Background())
 					defer cancel()
+					atomic.StoreUint64(&pos[r], 0) // no deletions until the start position is published
 					h := atomic.LoadUint64(&head)
 					last := robust.Id{Id: h}
 					if h > 120 && rng.Intn(3) == 0 {
 						last = robust.Id{Id: h - uint64(rng.Intn(20)), Reply: 1}
 					}
+					atomic.StoreUint64(&pos[r], last.Id)
 					if _, ok := o.Get(last); ok {
 						atomic.AddInt64(counts["handler:Get"], 1)
 					}
@@ -121,6 +134,7 @@ func TestVerifRaceStream(t *testing.T) {
 					})
 					defer timer.Stop()
 					for s := 0; s < steps; s++ {
+						atomic.StoreUint64(&pos[r], last.Id)
 						msgs := o.GetNext(ctx, last)
 						if len(msgs) == 0 {
 							atomic.AddInt64(counts["handler:GetNext-cancelled"], 1)
